@@ -9,7 +9,7 @@
 (*   C07  Eval(lift(ms), w) <=> SatSet(ms, w) # {} for all relevant worlds  *)
 (*   C10  print/parse round trip on miniscripts                            *)
 (***************************************************************************)
-EXTENDS Policy, Json, IOUtils, FiniteSetsExt
+EXTENDS Validation, Json, IOUtils, FiniteSetsExt
 
 ASSUME TLCSet(1, ndJsonDeserialize(IOEnv.TRACE))
 Rec == TLCGet(1)
@@ -33,6 +33,47 @@ LibTy(t) == Ty(t.b, Range(t.fl))
 (***************************************************************************)
 SameSpend(a1, a2, ctx) ==
   \A w \in WorldsOfCtx(a1, ctx) : Spendable(a1, w, ctx) = Spendable(a2, w, ctx)
+
+(***************************************************************************)
+(* C12: switches reject exactly the stated defect; entry points accept     *)
+(* only what obeys the context; limits are exact w.r.t. the published      *)
+(* figure; tightening never admits more.                                   *)
+(***************************************************************************)
+JudgeVal(ev, lt) ==
+  LET ctx == ev.ctx  v == ev.val  m == ev.ast IN
+  /\ (v.ok \/ Report("C11", "validate_panic", ev, v.err))
+  /\ (~v.ok \/
+      /\ \A sw \in Switches :
+            (v.sw[sw] = ~Defect(sw, m, lt, ctx))
+            \/ Report("C12", IF v.sw[sw] THEN "switch_misses_defect" ELSE "switch_rejects_without_defect", ev, sw)
+      /\ (v.max \/ Report("C12", "MAX_rejects", ev, ""))
+      /\ (v.consensus = ObeysContext(m, lt, ctx)
+          \/ Report("C12", IF v.consensus THEN "consensus_params_accept_context_violation" ELSE "consensus_params_reject_valid", ev, ""))
+      /\ (v.sane = ObeysSane(m, lt, ctx)
+          \/ Report("C12", IF v.sane THEN "sane_params_accept_insane" ELSE "sane_params_reject_sane", ev, ""))
+      /\ (ev.parse.insane.ok = ObeysContext(m, lt, ctx)
+          \/ Report("C12", IF ev.parse.insane.ok THEN "from_str_insane_accepts_context_violation" ELSE "from_str_insane_rejects_valid", ev, ev.parse.insane.err))
+      /\ (ev.parse.sane.ok = ObeysSane(m, lt, ctx)
+          \/ Report("C12", IF ev.parse.sane.ok THEN "from_str_accepts_insane" ELSE "from_str_rejects_sane", ev, ev.parse.sane.err))
+      /\ (v.mono_bad = <<>> \/ Report("C12", "tightening_admits_more", ev, v.mono_bad))
+      /\ (v.sane_entails_consensus \/ Report("C12", "SANE_not_below_CONSENSUS", ev, ""))
+      \* limits: Ok exactly from the published figure upwards
+      /\ \A nm \in {"script_size", "witness_items", "opcount", "exec_stack", "depth"} :
+            (v.lim[nm] = <<FALSE, TRUE, TRUE>> \/ (nm # "script_size" /\ nm # "depth" /\ ~v.lim.has_sat /\ v.lim[nm] = <<TRUE, TRUE, TRUE>>))
+            \/ Report("C12", "limit_not_exact", ev, <<nm, v.lim[nm]>>)
+      \* descriptor entry points accept only what obeys the context, and what they accept the
+      \* miniscript parser with consensus parameters accepts too
+      /\ (ev.descs.ok \/ Report("C11", "descriptor_entry_panic", ev, ""))
+      /\ (~ev.descs.ok \/
+          \A q \in 1..Len(ev.descs.list) :
+            LET d == ev.descs.list[q] IN
+            /\ (~d.from_str \/ ObeysContext(m, lt, ctx)
+                \/ Report("C12", "descriptor_from_str_accepts_context_violation", ev, d.wrap))
+            /\ (~d.from_str \/ ev.parse.insane.ok
+                \/ Report("C12", "descriptor_accepts_what_miniscript_consensus_rejects", ev, d.wrap))
+            /\ (d.new # "ok" \/ ObeysContext(m, lt, ctx)
+                \/ Report("C12", "descriptor_new_accepts_context_violation", ev, d.wrap))
+            /\ ((d.new # "PANIC" /\ d.from_str_msg # "PANIC") \/ Report("C11", "descriptor_entry_panic", ev, d.wrap))))
 
 JudgeEvent(ev) ==
   LET ctx == ev.ctx
@@ -74,6 +115,8 @@ JudgeEvent(ev) ==
              Eval(ev.lift.pol, w) = Spendable(ev.ast, w, ctx)
              \/ Report("C07", "lift_differs", ev, <<Eval(ev.lift.pol, w), w.sigs, w.pre, w.env.lock, w.env.seq>>))
       /\ (ev.lift.ok \/ Report("INFO", "lift_err", ev, ev.lift.err))
+      \* C12
+      /\ JudgeVal(ev, lt)
       \* C10
       /\ (ev.text.ok \/ Report("C10", "reparse_fails", ev, ev.text.err))
       /\ (~ev.text.ok \/
